@@ -1,4 +1,5 @@
 import RedactVerif.Props.L2
+import RedactVerif.Props.FactsClassify
 /-
 C11 — printing never fails: all inputs accepted, user-method panics contained.
 
